@@ -16,7 +16,7 @@ from oqv.astutil import branch_context, call_name, method_call
 from oqv.cfg import CFG
 from oqv.dataflow import DefUse, expand, form_at
 from oqv.forms import Poly, eval_form
-from oqv.model import AnalysisError, Program, Unit, dotted, norm, walk_local
+from oqv.model import AnalysisError, Program, Unit, dotted, norm, walk_local, kw_of
 from oqv.report import Check
 
 START = Poly.sym("START")
@@ -554,7 +554,7 @@ def time_tolerance_sites(prog: Program, tv: Optional[TimeValues] = None):
             if isinstance(c, ast.Call) and (dotted(c.func) or "").split(".")[-1] in TOLERANT:
                 n_cmp += 1
                 if any(tv.mentions(u, c, a) for a in list(c.args) + [k.value for k in c.keywords]):
-                    kw = {k.arg: k.value for k in c.keywords if k.arg}
+                    kw = kw_of(c)
                     r = kw.get("rtol", kw.get("rel"))
                     rel0 = isinstance(r, ast.Constant) and r.value in (0, 0.0)
                     out.append((u, c, not rel0))
@@ -638,7 +638,7 @@ def u5(prog: Program, chk: Check) -> None:
         du = tf.du(u)
         chk.saw(u, du.cfg)
         bound = {callee.params[i]: a for i, a in enumerate(c.args) if i < len(callee.params)}
-        bound.update({k.arg: k.value for k in c.keywords if k.arg})
+        bound.update(kw_of(c))
         times = bound.get(callee.params[1]) if len(callee.params) > 1 else None
         if times is None:
             raise AnalysisError(f"U5: sample times of the call at {u.loc(c)} not found")
